@@ -114,3 +114,19 @@ Definition src_of (o : eobs) : option (list Z) := match o with EOk b => Some b |
 
 Definition class_eqb (a b : oclass) : bool :=
   match a, b with COk, COk | CErr, CErr | CPanic, CPanic => true | _, _ => false end.
+
+(* Encodings too long to be written into a case file (the v2 size boundary: elements of 65535 / 65536 / 70000 bytes, given as
+   [repeat b n]): outcome class and length of model_encode / of the specification serializer against the implementation's outcome class
+   and length (the bytes themselves are compared outside, by digest, with a serializer written from the v2 collection format). *)
+Definition enc_shape_agrees (v : Z) (t : cqltype) (x : cval) (c : oclass) (len : Z) : bool :=
+  match m_encode v t x, c with
+  | OK (Some b), COk => Z.eqb (zlen b) len
+  | ERR, CErr | PANIC, CPanic => true
+  | _, _ => false
+  end.
+Definition spec_shape_agrees (v : Z) (t : cqltype) (x : cval) (c : oclass) (len : Z) : bool :=
+  match spec_val v t x, c with
+  | Some (Some b), COk => Z.eqb (zlen b) len
+  | None, CErr => true
+  | _, _ => false
+  end.
